@@ -39,7 +39,7 @@ func c08Doc(k int) *adoc.Doc {
 	return d.Finish()
 }
 
-var c08Env = EnvSpec{NS: map[string]string{"p": adoc.URI_U, "div": adoc.URI_U, "self": adoc.URI_U, "child": adoc.URI_U, "text": adoc.URI_U, "node": adoc.URI_V}, Vars: []VarSpec{numVar("v", 3), numVar("div", 4), {Local: "w", Type: "node-set", Nodes: []string{"/0"}}}}
+var c08Env = EnvSpec{NS: map[string]string{"p": adoc.URI_U, "div": adoc.URI_U, "self": adoc.URI_U, "child": adoc.URI_U, "text": adoc.URI_U, "node": adoc.URI_V}, Vars: []VarSpec{numVar("v", 3), numVar("div", 4), {Local: "w", Type: "node-set", Nodes: []string{"/0"}}, {Space: adoc.URI_U, Local: "v", Type: "number", Num: "5"}}, Funcs: []string{"rec-f", "rec-pf"}}
 
 // c08Quirks returns the parser options reproducing the open acceptance findings.
 func c08Quirks() (refxp.Options, map[string]refxp.Options) {
